@@ -2,6 +2,7 @@ import RimeModel.C07.CompleteLemmas
 import RimeModel.C07.TransLemmas
 import RimeModel.C07.LongLemmas
 import RimeModel.C07.BuiltLemmas
+import RimeModel.C07.SentenceLemmas
 /-!
 C07 — candidates for an input are exactly the dictionary entries that its code spells.  Property theorems only.
 
@@ -224,6 +225,55 @@ theorem table_exact_then_completion_partial (chunks : List Chunk) (hne : NoEmpty
   simp only [decide_eq_false_iff_not] at this
   omega
 
+/-! ### sentences of a table-style schema (`enable_sentence`) -/
+
+/-- `consume_trailing_delimiters(pos, input, delimiters)` never goes back and steps over delimiters only -/
+theorem consume_trailing_delimiters_spec (delims input : Bytes) (pos : Nat) :
+    pos ≤ consumeDelims delims input pos ∧
+    ∀ i, pos ≤ i → i < consumeDelims delims input pos → ∃ b, input[i]? = some b ∧ delims.contains b = true :=
+  ⟨consumeDelims_ge delims input pos, fun i h1 h2 => consumeDelims_delims delims input pos i h1 h2⟩
+
+/-- **word_graph_edges_sound** — every edge `[s, e)` of the word graph `MakeSentence` hands to the poet stands for a
+key the prism finds at `s` in the rest of the input, that has words, followed by exactly the delimiters the rest of
+the input has after it (`e = s + consume_trailing_delimiters(len, input.substr(s))`): the codes and delimiters of any
+path from 0 to the end make up the input. -/
+theorem word_graph_edges_sound (t : Table) (syl : List Bytes) (delims input : Bytes) (cps : Nat → List PrismKey) :
+    ∀ e ∈ (wordGraph t syl delims input cps).edges, EdgeOk t syl delims input cps e :=
+  foldl_wordGraphStep_edges t syl delims input cps _ _ (by simp)
+
+/-- **table_sentence_shape** — the sentence translation is empty when the poet cannot reach the end of the input (or
+finds nothing); otherwise it is the sentence followed only by `table` candidates that start the segment, by
+non-increasing end position (longer first words first). -/
+theorem table_sentence_shape (w : WordGraph) (start total : Nat) (sentence : Option Cand) :
+    (poetReaches w.edges total = false → sentenceTranslation w start total sentence = []) ∧
+    (sentenceTranslation w start total sentence = [] ∨
+      ∃ s, sentence = some s ∧ sentenceTranslation w start total sentence = s :: sentenceWords w start) ∧
+    (sentenceWords w start).Pairwise (fun a b => b.endPos ≤ a.endPos) ∧
+    (∀ c ∈ sentenceWords w start, c.type = "table" ∧ c.start = start) := by
+  refine ⟨?_, ?_, (sentenceWords_shape w start).1, (sentenceWords_shape w start).2⟩
+  · intro h; simp [sentenceTranslation, h]
+  · unfold sentenceTranslation
+    split
+    · cases sentence with
+      | none => exact Or.inl rfl
+      | some s => exact Or.inr ⟨s, rfl, rfl⟩
+    · exact Or.inl rfl
+
+/-- a sentence is made only when the plain translation is empty and `enable_sentence` is on -/
+theorem table_query_plain_first (t : Table) (syl : List Bytes) (delims input : Bytes) (start : Nat) (completion es : Bool)
+    (exactKey : Option PrismKey) (expansion : List PrismKey) (cps : Nat → List PrismKey) (sentence : Option Cand)
+    (h : tableTranslation t syl delims input start completion exactKey expansion ≠ [] ∨ es = false) :
+    tableQuery t syl delims input start completion es exactKey expansion cps sentence
+      = tableTranslation t syl delims input start completion exactKey expansion := by
+  unfold tableQuery
+  rcases h with h | h
+  · have : (tableTranslation t syl delims input start completion exactKey expansion).isEmpty = false := by
+      cases hx : tableTranslation t syl delims input start completion exactKey expansion with
+      | nil => exact absurd hx h
+      | cons a b => rfl
+    simp [this]
+  · simp [h]
+
 /-! ### non-vacuity -/
 
 /-- a two-position graph (syllable 0 on [0,1) and [1,2), syllable 1 on [0,2)) over a table with entries for
@@ -235,6 +285,16 @@ example :
                        indices := [(0, [(0, [⟨1, 0, Dy.zero⟩]), (1, [⟨2, 0, Dy.zero⟩])]), (1, [(0, [⟨2, 0, Dy.zero⟩])])] }
     (scriptTranslation t g 0 2 false none).map (fun c => (c.endPos, c.text)) = [(2, [67]), (2, [66]), (1, [65])] ∧
     (lookup t g 0 false Dy.zero).all (fun kv => kv.2.rest.all (fun c => !c.entries.isEmpty)) = true := by
+  decide
+
+/-- a word graph: codes a (syllable 0) and b (syllable 1), delimiter ', input a'b: edges [0,2) and [2,3), the poet
+reaches the end, the translation is the sentence followed by the first word with its delimiter -/
+example :
+    let t : Table := build id 2 [⟨[0], [65], ⟨3, 0⟩⟩, ⟨[1], [66], ⟨1, 0⟩⟩]
+    let cps : Nat → List PrismKey := fun s => if s == 0 then [⟨1, [(0, 0)]⟩] else if s == 2 then [⟨1, [(1, 0)]⟩] else []
+    let w := wordGraph t [[97], [98]] [39] [97, 39, 98] cps
+    w.edges = [(0, 2), (2, 3)] ∧ poetReaches w.edges 3 = true ∧
+    (sentenceTranslation w 0 3 (some ⟨"sentence", 0, 3, [65, 66]⟩)).map (fun c => (c.endPos, c.text)) = [(3, [65, 66]), (2, [65])] := by
   decide
 
 end C07
